@@ -30,6 +30,16 @@ pub mod rodbus {
     pub mod server { pub use crate::ffi_server::Authorization; pub use crate::rodbus_server::*; }
     pub mod client { pub use crate::rodbus_client::*; }
     pub use crate::rodbus_client::doubling_retry_strategy;
+    pub use crate::rodbus_serial::*;
+}
+// rodbus::SerialSettings (rodbus/src/serial/mod.rs) and the serialport enums it re-exports (verbatim from the cargo registry)
+pub mod rodbus_serial {
+    use vstd::prelude::*;
+//@item @registry/serialport-4.9.0/src/lib.rs | DataBits | derive=Copy,Clone
+//@item @registry/serialport-4.9.0/src/lib.rs | FlowControl | derive=Copy,Clone
+//@item @registry/serialport-4.9.0/src/lib.rs | Parity | derive=Copy,Clone
+//@item @registry/serialport-4.9.0/src/lib.rs | StopBits | derive=Copy,Clone
+//@item rodbus/src/serial/mod.rs | SerialSettings | derive=Copy,Clone
 }
 pub mod rodbus_client {
 //@include frag/ffi_rodbus_client_shim.tpl
